@@ -1,6 +1,7 @@
 //! C15: BMP messages decode faithfully; malformed ones cannot panic the monitor.
 //!
-//! request: `bmp <hex>`; reply: `err` | `panic` (from_octets) | an observation
+//! request: `bmp <hex>` or `bmp <hex> <cfg>` (<cfg> = the SessionConfig token of C01/C02, used for
+//! `RouteMonitoring::bgp_update(&cfg)`; default `4` = SessionConfig::modern()); reply: `err` | `panic` (from_octets) | an observation
 //! line listing every accessor group (each group is `panic` if any accessor in
 //! it panicked).
 use crate::common::*;
@@ -66,7 +67,7 @@ fn stat_str(s: Stat) -> String {
     }
 }
 
-fn observe(bytes: &[u8]) -> String {
+fn observe(bytes: &[u8], cfg: &SessionConfig) -> String {
     let msg = match Message::from_octets(bytes) {
         Ok(m) => m,
         Err(_) => return "err".into(),
@@ -84,21 +85,22 @@ fn observe(bytes: &[u8]) -> String {
     match &msg {
         Message::RouteMonitoring(m) => {
             let p = grp(|| pph_str(m.per_peer_header()));
-            // an embedded UPDATE decodes exactly as it would on its own
-            let u = grp(|| {
-                let cfg = SessionConfig::modern();
-                let a = m.bgp_update(&cfg);
-                let alone = routecore::bgp::message::UpdateMessage::from_octets(&bytes[48..], &cfg);
-                match (a, alone) {
-                    (Ok(x), Ok(y)) => { if x.as_ref() == &y.as_ref()[19..19 + x.as_ref().len()] { "ok".into() } else { "ok-differs".into() } }
-                    (Err(_), Err(_)) => "err".into(),
-                    (Ok(_), Err(_)) => "ok-but-alone-err".into(),
-                    (Err(_), Ok(_)) => "err-but-alone-ok".into(),
-                }
+            // the embedded UPDATE, observed through every accessor group of C01/C02 ...
+            let u = grp(|| match m.bgp_update(cfg) {
+                Ok(x) => crate::props::c02::observe_msg(&x, bytes.len() - 48),
+                Err(_) => "err".into(),
             });
-            // only anomalies are part of the reply (the model side has no UPDATE decoder here)
-            let extra = if u == "ok" || u == "err" { String::new() } else { format!(" upd={}", u) };
-            format!("RM {} pph={}{}", head, p, extra)
+            // ... decodes exactly as it would on its own (`from_octets` on the same octets)
+            let same = grp(|| {
+                let alone = crate::props::c02::observe(cfg, &bytes[48..].to_vec());
+                let octets_same = match (m.bgp_update(cfg), routecore::bgp::message::UpdateMessage::from_octets(&bytes[48..], cfg)) {
+                    (Ok(x), Ok(y)) => x.as_ref() == &y.as_ref()[19..19 + x.as_ref().len()],
+                    (Err(_), Err(_)) => true,
+                    _ => false,
+                };
+                ((alone == u && octets_same) as u8).to_string()
+            });
+            format!("RM {} pph={} same={} upd={}", head, p, same, u)
         }
         Message::StatisticsReport(m) => {
             let p = grp(|| pph_str(m.per_peer_header()));
@@ -144,19 +146,23 @@ fn observe(bytes: &[u8]) -> String {
             let sr = grp(|| { let (a, b) = m.bgp_open_sent_rcvd();
                 if a.as_ref() == m.bgp_open_sent().as_ref() && b.as_ref() == m.bgp_open_rcvd().as_ref() { "same".into() } else { "differs".into() } });
             let t = grp(|| tlvs_str(m.information_tlvs()));
-            // the configuration-deriving accessors (their *values* are C12's subject) must not panic
+            // the configuration-deriving accessors must not panic (theorem peer_up_config_total); what they
+            // read off each embedded OPEN is reported: AS, four-octet flag, ADD-PATH entries (E = Err), MP entries
+            // (the derived SessionConfig values are C12's subject)
             let c = grp(|| {
                 let _ = m.session_config();
                 let _ = m.pph_session_config();
                 let _ = m.supported_protocols();
                 let (a, b) = m.bgp_open_sent_rcvd();
+                let mut parts = vec![];
                 for o in [&a, &b] {
-                    let _ = o.my_asn(); let _ = o.holdtime(); let _ = o.identifier(); let _ = o.version();
-                    let _ = o.four_octet_capable(); let _ = o.addpath_families_vec();
-                    let _ = o.multiprotocol_ids().count(); let _ = o.get_software_version();
+                    let _ = o.holdtime(); let _ = o.identifier(); let _ = o.version();
+                    let _ = o.get_software_version();
                     let _ = o.capabilities().count(); let _ = o.parameters().count();
+                    let ap = match o.addpath_families_vec() { Ok(v) => v.len().to_string(), Err(_) => "E".into() };
+                    parts.push(format!("{}.{}.{}.{}", o.my_asn().into_u32(), o.four_octet_capable() as u8, ap, o.multiprotocol_ids().count()));
                 }
-                "ok".into()
+                format!("ok:{}", parts.join("/"))
             });
             format!("PU {} pph={} local={} sent={} rcvd={} pair={} tlvs={} cfg={}", head, p, l, s, r, sr, t, c)
         }
@@ -229,6 +235,33 @@ fn bgp_header(len: u16, typ: u8) -> Vec<u8> {
 
 /// a capability with content that `Capability::parse` accepts (mostly)
 fn gen_cap(rng: &mut Rng) -> Vec<u8> {
+    // near misses: a known code with a value one octet short / long, or a length that does not
+    // fit the per-code rule (what the accessors rely on `Capability::parse` to have refused)
+    if rng.chance(1, 10) {
+        let code = *rng.pick(&[1u8, 2, 3, 5, 6, 8, 9, 64, 65, 66, 67, 68, 69, 70, 71, 73, 75, 76, 128, 130, 131]);
+        let n = match rng.below(4) { 0 => 3, 1 => 5, _ => rng.usize(0, 9) };
+        let mut c = vec![code, n as u8];
+        c.extend(rng.bytes(n));
+        if code == 69 && n >= 4 && rng.bool() { c[5] = *rng.pick(&[0u8, 1, 2, 3, 4]); }
+        return c;
+    }
+    // ADD-PATH capabilities beyond the plain case: several tuples, a length that is not a multiple of four
+    // (4k + r octets: `Capability::parse` looks at the first tuple only, `addpath_families_vec` reads
+    // `chunks(4)` and must answer Err on the short last chunk), a later tuple with a direction outside 1..=3
+    if rng.chance(1, 8) {
+        let k = rng.usize(1, 4);
+        let mut v = vec![];
+        for _ in 0..k { v.extend((rng.range(1, 2) as u16).to_be_bytes()); v.push(*rng.pick(&[1u8, 2, 4, 128])); v.push(rng.range(1, 3) as u8); }
+        match rng.below(4) {
+            0 => {}                                                             // well-formed, k tuples
+            1 => { let r = rng.usize(1, 3); v.extend(rng.bytes(r)); }      // 4k + r
+            2 => { if k > 1 { let i = 4 * rng.usize(1, k - 1) + 3; v[i] = *rng.pick(&[0u8, 4, 7, 255]); } else { v[3] = 0; } }   // invalid later tuple (or direction 0 in the only one)
+            _ => { let r = rng.usize(1, 3); v.extend(vec![0u8, 1, 1, 3][..r].to_vec()); }   // 4k + r, the fragment looks like the start of a tuple
+        }
+        let mut c = vec![69u8, v.len() as u8];
+        c.extend(v);
+        return c;
+    }
     let (code, val): (u8, Vec<u8>) = match rng.below(16) {
         0 => (1, { let mut v = (rng.range(1, 3) as u16).to_be_bytes().to_vec(); v.push(0); v.push(*rng.pick(&[1u8, 2, 4, 128, 133])); v }),
         1 => (2, vec![]),
@@ -326,6 +359,7 @@ pub fn gen_valid(rng: &mut Rng, typ: u8) -> Vec<u8> {
     let mut body = Vec::new();
     match typ {
         0 => { body.extend(gen_pph(rng)); body.extend(gen_update(rng)); }
+        100 => { body.extend(gen_pph(rng)); }   // RouteMonitoring whose UPDATE the caller appends
         1 => {
             body.extend(gen_pph(rng));
             let n = rng.usize(0, 6);
@@ -363,9 +397,29 @@ pub fn gen_valid(rng: &mut Rng, typ: u8) -> Vec<u8> {
         }
         _ => { body.extend(gen_pph(rng)); let n = rng.usize(0, 20); body.extend(rng.bytes(n)); }
     }
-    let mut v = common((6 + body.len()) as u32, typ);
+    let mut v = common((6 + body.len()) as u32, if typ == 100 { 0 } else { typ });
     v.extend(body);
     v
+}
+
+/// a RouteMonitoring message around an UPDATE of any family (the C01 generator and reference
+/// encoder), sometimes damaged (the C02 mutator), with the configuration to decode it under
+fn gen_rm(rng: &mut Rng, i: usize) -> (Vec<u8>, String) {
+    use crate::props::{c01, c02};
+    let (c, content) = c01::gen_case(rng, Some(i % 15), 120);
+    let mut u = c01::ref_encode(&c, &content);
+    let mut cfg = c01::cfg_token(&c);
+    match rng.below(8) {
+        0 | 1 => { let other = gen_update(rng); u = c02::mutate(rng, u, &other); }
+        2 => { cfg = c02::gen_cfg(rng); }                       // decoded under an unrelated configuration
+        3 => { u.extend(rng.bytes(3)); }                        // octets after the UPDATE's announced length
+        _ => {}
+    }
+    let mut v = gen_valid(rng, 100);
+    v.extend(u);
+    let l = v.len() as u32;
+    v[1..5].copy_from_slice(&l.to_be_bytes());
+    (v, cfg)
 }
 
 pub fn mutate(rng: &mut Rng, v: &mut Vec<u8>) {
@@ -393,6 +447,12 @@ impl Prop for C15 {
         let mut out = Vec::new();
         for i in 0..n {
             let typ = (i % 7) as u8;
+            if typ == 0 && i % 2 == 0 {
+                let (mut v, cfg) = gen_rm(rng, i / 14);
+                if rng.chance(1, 8) { mutate(rng, &mut v); }
+                out.push(format!("bmp {} {}", hex(&v), cfg));
+                continue;
+            }
             let mut v = gen_valid(rng, typ);
             match rng.below(10) {
                 0..=4 => {}
@@ -408,7 +468,11 @@ impl Prop for C15 {
     fn exec(&self, line: &str) -> String {
         let w: Vec<&str> = line.split(' ').collect();
         match w.as_slice() {
-            ["bmp", h] => match unhex(h) { Some(b) => observe(&b), None => "bad-op".into() },
+            ["bmp", h] => match unhex(h) { Some(b) => observe(&b, &SessionConfig::modern()), None => "bad-op".into() },
+            ["bmp", h, c] => match (unhex(h), crate::props::c02::parse_cfg(c)) {
+                (Some(b), Some(c)) => observe(&b, &crate::props::c02::make_cfg(&c)),
+                _ => "bad-op".into(),
+            },
             _ => "bad-op".into(),
         }
     }
@@ -421,8 +485,14 @@ impl Prop for C15 {
         for f in reply.split(' ') {
             if f.ends_with("=panic") { return Err(format!("accessor group `{}` panicked on an accepted message", f)); }
         }
-        if reply.contains("upd=ok-") || reply.contains("upd=err-") {
+        if reply.starts_with("RM ") && !reply.contains(" same=1 ") {
             return Err("embedded UPDATE decodes differently from the same UPDATE on its own".into());
+        }
+        if let Some(i) = reply.find(" upd=ok ") {
+            // the accessor groups of the embedded UPDATE are `name=value` items separated by ` | `
+            for g in reply[i + 8..].split(" | ") {
+                if g.ends_with("=panic") { return Err(format!("accessor group `{}` of the embedded UPDATE panicked", g)); }
+            }
         }
         if reply.contains("pair=differs") { return Err("bgp_open_sent_rcvd differs from bgp_open_sent/bgp_open_rcvd".into()); }
         // header fields are the bytes
@@ -474,6 +544,16 @@ impl Prop for C15 {
     }
 
     fn class(&self, _line: &str, reply: &str) -> String {
-        reply.split(' ').next().unwrap_or("").to_string()
+        let k = reply.split(' ').next().unwrap_or("");
+        if k == "RM" {
+            // the embedded UPDATE: rejected / accepted, and which NLRI it carries
+            let u = if reply.contains(" upd=err") { "upd-err".to_string() } else {
+                let fams = crate::props::c02::group(&reply[reply.find(" upd=").map(|i| i + 5).unwrap_or(0)..], "fams").unwrap_or("?");
+                format!("upd-ok:{}", if fams == "-,-,-,-" { "no-nlri" } else if fams.ends_with(",-,-") { "conventional" } else { "mp" })
+            };
+            return format!("RM:{}", u);
+        }
+        if k == "PU" { return format!("PU:{}", reply.split(' ').find_map(|f| f.strip_prefix("cfg=")).map(|c| c.split(':').next().unwrap_or("")).unwrap_or("?")); }
+        k.to_string()
     }
 }
